@@ -34,13 +34,7 @@ def method_paths(ctx, cls, name):
     def run(it_):
         sv = Inst(ci, {}, "self")
         bound = it_.symbolic_args(m)
-        if it_._effective_decorators(m):
-            # the method is what its decorators make of it
-            from ..values import FuncV
-
-            pos = [bound[p] for p in m.params[1:] if p in bound]
-            return it_.call(FuncV(m, None, sv, m.cls), pos, {k: bound[k] for k in m.kwonly if k in bound}, m.node, None)
-        return it_._exec_function(m, bound, sv, None, m.cls)
+        return it_.enter(m, bound, sv, None, m.cls)
 
     return it, m, it.explore(run)
 
